@@ -26,6 +26,9 @@ CLAIMS = {
  "C07": ("Bounded symbolic verification that no client behaviour wedges or crashes the emulator: on the FULL composition the first-generation runtime executes EVERY script of L calls over the whole Runtime API alphabet incl. misuse {next, response(in-flight id), response(bogus id), error, init/error, exit, stall, restore/next, restore/error}, the first-generation extension EVERY script over {register, next, init/error, exit/error, exit, stall}, optionally followed by a second faulty generation (stall / exit), then healthy generations, over 3-4 invocations and every schedule within the delay bound: no panic (log.Panic included), no deadlock at quiescence, every invocation returns within timeout + reset allowance of logical time, every body is a payload posted during that invocation or platform-made, and once the faulty generations are gone at most one further invocation fails; plus expiry racing with the lazy initialisation.",
          "Trusted as C01. Script choices are decision variables of the same exploration as the schedule. L<=2 quick, 3 thorough; one extension; wall-clock and HTTP-level misuse outside.",
          TECH + "; exhaustive symbolic misuse scripts, engine-level panic and deadlock detection"),
+ "C08": ("Bounded symbolic differential verification that a reset leaves no trace: on the FULL composition a SUBJECT instance goes through one of 6 prefixes (healthy+reset, runtime exit, timeout, init error then exit, response-then-exit, init crash then timeout) ending in a reset, a REFERENCE instance is freshly started and reset at once; both run one of 4 suffixes; the per-generation state after the reset (registrations, barriers, recorded errors, runtime identity, cached error response, reservation) and every suffix observation (caller outcomes, platform events, runtime/extension views, supervisor requests; generation numbers and request ids normalised) must be equal, for every schedule within the delay bound; in the Late variants the exit notification of a killed old process is delivered in each of 3 phases of the next invocation.",
+         "Trusted as C01; the fresh-and-reset reference and the normalisation are harness code. Prefix/suffix/phase choices are decision variables. Fields deliberately not compared are listed in the evidence file.",
+         TECH + "; differential (relational) harness over two instances in one symbolic run"),
  "C09": ("Bounded symbolic verification of the shutdown choreography on the ORCH composition: for 0-2 extensions whose behaviour is a symbolic choice among {subscribed+exits 0/1, subscribed+ignores, unsubscribed, failed to launch}, runtime {exits on TERM, ignores TERM}, trigger {timeout, failure reset, shutdown}: no extension => one KILL and no TERM; otherwise TERM before KILL and KILL only after 30% of the allowance; exactly one SHUTDOWN event with the reason per subscriber, KILL only at the deadline; unsubscribed killed without event; return only after every started process was reaped; every schedule within the delay bound.",
          "Trusted: gosmt SSA semantics/intrinsics, fake supervisor contract, logical clock with concrete durations (2000 ms allowance). Already-exited / never-started runtime and the symbolic 30% arithmetic are outside.",
          TECH + "; ORCH harness, behaviour choices as decision variables"),
